@@ -898,8 +898,98 @@ def check_engval(case, cc):
 
 
 # --------------------------------------------------------------------------------------------
+# --------------------------------------------------------------------------------------------
+# EngVal histories: one object, a sequence of conversions and in-place changes; after every step the object (and what
+# it returns) must agree with a model that keeps (value, unit) and converts with the exact affine reference
+def engval_histories():
+    _Units, cats, consts, _cat_of = lis()
+    names = sorted(c for c in cats if len(cats[c]) >= 2)
+
+    @st.composite
+    def cases(draw):
+        c = draw(st.sampled_from(names))
+        units = cats[c]
+        ops = []
+        for _ in range(draw(st.integers(2, 8))):
+            k = draw(st.sampled_from(['get', 'get', 'iadd', 'isub', 'imul', 'set', 'convert', 'new', 'cmp']))
+            if k in ('get', 'convert', 'new', 'cmp'):
+                ops.append({'k': k, 'u': draw(st.sampled_from(units))})
+            elif k == 'imul':
+                ops.append({'k': k, 'x': draw(st.sampled_from([2.0, 0.5, -1.0, 10.0]))})
+            else:
+                ops.append({'k': k, 'x': draw(st.sampled_from([1.0, -2.5, 100.0, 0.125]))})
+        return {'cat': c, 'u0': draw(st.sampled_from(units)), 'v0': draw(st.sampled_from([0.0, 1.0, -3.5, 12.0, 1000.0])), 'ops': ops}
+    return cases()
+
+
+def check_engval_history(case, cc):
+    from fractions import Fraction
+    from TotalDepth.LIS.core import EngVal as EV
+    _Units, _cats, consts, _cat_of = lis()
+
+    def conv(v, u1, u2):
+        (s1, o1), (s2, o2) = consts[u1], consts[u2]
+        return float((Fraction(v) - Fraction(o1)) * Fraction(s1) / Fraction(s2) + Fraction(o2)) if u1 != u2 else v
+
+    def close(a, b):
+        return abs(a - b) <= 1e-9 * (abs(a) + abs(b)) + 1e-9
+
+    ev = EV.EngVal(case['v0'], case['u0'])
+    mv, mu = case['v0'], case['u0']
+    mutated_after_get = False
+    got_units = set()
+    for i, op in enumerate(case['ops']):
+        k = op['k']
+        if k == 'get':
+            r = ev.getInUnits(op['u'])
+            e = conv(mv, mu, op['u'])
+            if not close(r, e):
+                cc.dev('engval-history', 'getInUnits-after-history', 'step %d of %r: getInUnits(%r)=%r, model %r (value %r %r)' % (i, case['ops'], op['u'], r, e, mv, mu))
+                return
+            if op['u'] in got_units and mutated_after_get:
+                cc.nt(True)
+                cc.cls('engval-history:get-mutate-get')
+            got_units.add(op['u'])
+        elif k == 'new':
+            r = ev.newEngValInUnits(op['u'])
+            if not close(r.value, conv(mv, mu, op['u'])) or r.uom != op['u']:
+                cc.dev('engval-history', 'newEngValInUnits-after-history', 'step %d of %r' % (i, case['ops']))
+                return
+        elif k == 'cmp':
+            other = EV.EngVal(conv(mv, mu, op['u']) + 1.0 + abs(conv(mv, mu, op['u'])) * 1e-3, op['u'])
+            same = EV.EngVal(conv(mv, mu, op['u']), op['u'])
+            if not (ev < other) or (ev > other):
+                cc.dev('engval-history', 'comparison-after-history', 'step %d of %r: %r < %r is False' % (i, case['ops'], (mv, mu), (other.value, other.uom)))
+                return
+        elif k == 'convert':
+            ev.convert(op['u'])
+            mv, mu = conv(mv, mu, op['u']), op['u']
+            got_units = set()
+        elif k == 'iadd':
+            ev += op['x']
+            mv += op['x']
+            mutated_after_get = bool(got_units)
+        elif k == 'isub':
+            ev -= op['x']
+            mv -= op['x']
+            mutated_after_get = bool(got_units)
+        elif k == 'imul':
+            ev *= op['x']
+            mv *= op['x']
+            mutated_after_get = bool(got_units)
+        elif k == 'set':
+            ev.value = op['x']
+            mv = op['x']
+            mutated_after_get = bool(got_units)
+        if not close(ev.value, mv) or ev.uom != mu:
+            cc.dev('engval-history', 'state-after-history', 'step %d of %r: object holds (%r, %r), model (%r, %r)' % (i, case['ops'], ev.value, ev.uom, mv, mu))
+            return
+    cc.cls('engval-history')
+
+
 def parts(tier):
     return [
+        HypPart('engval-history', engval_histories(), check_engval_history, 1200, 24000),
         EnumPart('osdd-pairs', run_osdd_pairs, check_osdd_pairs),
         EnumPart('osdd-triples', run_osdd_triples, check_osdd_triples),
         EnumPart('osdd-cross-dimension', run_osdd_cross, check_osdd_cross),
